@@ -424,8 +424,36 @@ func ruleC13RemoteSEID(w *World, r *Report) {
 	}
 	r.check(len(stores) == 1, "R13.2", mn, "a CP F-SEID in a modification request replaces the stored remote SEID", w.Pos(mod.Pos()), "one store", fmt.Sprintf("handleSessionModificationRequest stores remoteSEID %d times: a changed CP F-SEID is not remembered, later Session Report Requests are addressed with the old SEID", len(stores)))
 	for _, st := range stores {
-		s := symOf(st.Val).String()
-		r.check(strings.Contains(s, "FSEID#0(") && strings.HasSuffix(s, ".SEID") && strings.Contains(s, "CPFSEID"), "R13.2", mn, "remoteSEID ← the request's CP F-SEID", w.Pos(st.Pos()), s, "remoteSEID is set from "+s)
+		sv := symOf(st.Val)
+		s := sv.String()
+		isCP := func(x string) bool {
+			return strings.Contains(x, "FSEID#0(") && strings.HasSuffix(x, ".SEID") && strings.Contains(x, "CPFSEID")
+		}
+		good := isCP(s)
+		if !good && sv.Op == "phi" {
+			// the store may be unconditional — `seid := session.remoteSEID; if the request has a CP F-SEID
+			// { seid = it }; session.remoteSEID = seid` —: what it writes is, per path, the request's CP F-SEID
+			// or the very field it writes to (nothing changes on that path); any other origin is a wrong SEID
+			self := ""
+			if fa, ok := st.Addr.(*ssa.FieldAddr); ok && fieldVar(fa) != nil {
+				// (the path of a field of a local struct value is named without the & of its address)
+				self = strings.TrimPrefix(symOf(fa.X).String(), "&") + "." + fieldVar(fa).Name()
+			}
+			nCP := 0
+			good = true
+			for _, a := range sv.Args {
+				switch {
+				case isCP(a.String()):
+					nCP++
+				case a.Op == "field" && self != "" && a.Name == self:
+				case a.Op == "unknown" && a.Name == "cycle":
+				default:
+					good = false
+				}
+			}
+			good = good && nCP > 0
+		}
+		r.check(good, "R13.2", mn, "remoteSEID ← the request's CP F-SEID", w.Pos(st.Pos()), s, "remoteSEID is set from "+s)
 		// the written session value is the one put back into the store
 		var puts []ssa.Instruction
 		allInstrs(mod, func(i ssa.Instruction) {
